@@ -187,6 +187,7 @@ func NewWorld(repo, verifd string, needTests bool) (*World, error) {
 	if len(w.All) < 16 {
 		return w, fmt.Errorf("load: only %d packages of %s loaded (expected >= 16)", len(w.All), modPath)
 	}
+	w.normaliseSyntax()
 	w.resolveRenames()
 	return w, nil
 }
@@ -512,4 +513,59 @@ func (w *World) InBoundsProven(pos token.Pos) bool {
 	}
 	p := w.Fset.Position(pos)
 	return !u[fmt.Sprintf("%s:%d:%d", p.Filename, p.Line, p.Column)]
+}
+
+// normaliseSyntax rewrites, in the loaded syntax trees only, spellings that
+// mean the same into one form, so that rules which read syntax see one form:
+//
+//	var x = e   (inside a function, no type given)   →   x := e
+//
+// The identifiers are kept (their objects and types are unchanged), no node is
+// invented, and go/ssa builds the same code from either spelling.
+func (w *World) normaliseSyntax() {
+	conv := func(s ast.Stmt) ast.Stmt {
+		ds, ok := s.(*ast.DeclStmt)
+		if !ok {
+			return s
+		}
+		gd, ok := ds.Decl.(*ast.GenDecl)
+		if !ok || gd.Tok != token.VAR || len(gd.Specs) != 1 {
+			return s
+		}
+		vs, ok := gd.Specs[0].(*ast.ValueSpec)
+		if !ok || vs.Type != nil || len(vs.Values) == 0 || (len(vs.Values) != len(vs.Names) && len(vs.Values) != 1) {
+			return s
+		}
+		for _, n := range vs.Names {
+			if n.Name == "_" {
+				return s
+			}
+		}
+		lhs := make([]ast.Expr, len(vs.Names))
+		for i, n := range vs.Names {
+			lhs[i] = n
+		}
+		return &ast.AssignStmt{Lhs: lhs, TokPos: vs.Names[0].End(), Tok: token.DEFINE, Rhs: vs.Values}
+	}
+	for _, p := range w.All {
+		for _, f := range p.Syntax {
+			ast.Inspect(f, func(n ast.Node) bool {
+				switch b := n.(type) {
+				case *ast.BlockStmt:
+					for i, s := range b.List {
+						b.List[i] = conv(s)
+					}
+				case *ast.CaseClause:
+					for i, s := range b.Body {
+						b.Body[i] = conv(s)
+					}
+				case *ast.CommClause:
+					for i, s := range b.Body {
+						b.Body[i] = conv(s)
+					}
+				}
+				return true
+			})
+		}
+	}
 }
